@@ -351,6 +351,8 @@ impl Prop for C06 {
             ElemKind::Zs => run_ins_any::<Zs>(k, ctx),
             ElemKind::U128 => run_ins_any::<u128>(k, ctx),
             ElemKind::B3 => run_ins_any::<crate::elem::B3>(k, ctx),
+            ElemKind::Nd => run_ins_any::<crate::elem::Nd>(k, ctx),
+            ElemKind::W40 => run_ins_any::<crate::elem::W40>(k, ctx),
         }
     }
     fn essential_classes() -> &'static [&'static str] {
@@ -367,7 +369,7 @@ fn rem_giant(g: super::gianthist::GiantHist) -> RemCase {
 
 fn c06_small_strategy(tier: Tier) -> BoxedStrategy<InsCase> {
     let max = 40u8;
-    let elems = if tier == Tier::Quick { vec![ElemKind::U32, ElemKind::Tr, ElemKind::Tr, ElemKind::Zs, ElemKind::Bx, ElemKind::U128, ElemKind::B3] } else { vec![ElemKind::U32, ElemKind::Tr, ElemKind::Tr, ElemKind::Zs, ElemKind::Bx, ElemKind::Bx, ElemKind::U128, ElemKind::B3] };
+    let elems = if tier == Tier::Quick { vec![ElemKind::U32, ElemKind::Tr, ElemKind::Tr, ElemKind::Zs, ElemKind::Bx, ElemKind::U128, ElemKind::B3, ElemKind::W40, ElemKind::Nd] } else { vec![ElemKind::U32, ElemKind::Tr, ElemKind::Tr, ElemKind::Zs, ElemKind::Bx, ElemKind::Bx, ElemKind::U128, ElemKind::B3, ElemKind::W40, ElemKind::Nd] };
     (proptest::sample::select(elems), prop_oneof![49 => 0..=max, 1 => 0u8..=120], prop_oneof![49 => 0..=max, 1 => 0u8..=120], any::<bool>(), prop_oneof![Just(Axis::Row), Just(Axis::Col)], prop::bool::weighted(0.2), any::<u16>(), prop_oneof![8 => Just(0i8), 1 => Just(1i8), 1 => Just(-1i8), 1 => Just(2i8)], prop_oneof![9 => Just(0u64), 1 => Just(1u64), 1 => Just(2u64), 1 => Just(u64::MAX), 1 => Just(1u64 << 63)], src())
         .prop_map(|(elem, cols, rows, exact_cap, axis, push, frac, dlen, past, srck)| {
             let (cols, rows) = if cols == 0 || rows == 0 { (0, 0) } else { (cols, rows) };
@@ -669,7 +671,7 @@ impl Prop for C07 {
     fn strategy(_tier: Tier) -> BoxedStrategy<RemCase> {
         let max = 40u8;
         let giant = super::gianthist::strategy(super::gianthist::Focus::Remove).prop_map(rem_giant);
-        let small = (proptest::sample::select(vec![ElemKind::U32, ElemKind::Tr, ElemKind::Tr, ElemKind::Zs, ElemKind::Bx, ElemKind::U128, ElemKind::B3]), prop_oneof![49 => 0..=max, 1 => 0u8..=120], prop_oneof![49 => 0..=max, 1 => 0u8..=120], any::<bool>(), prop_oneof![Just(Axis::Row), Just(Axis::Col)], prop::bool::weighted(0.2), any::<u16>(), prop_oneof![12 => Just(0u64), 1 => Just(1u64), 1 => Just(u64::MAX), 1 => Just(1u64 << 62)], prop_oneof![3 => drain_script(), 1 => prop::collection::vec(super::history::dstep(), 0..60)])
+        let small = (proptest::sample::select(vec![ElemKind::U32, ElemKind::Tr, ElemKind::Tr, ElemKind::Zs, ElemKind::Bx, ElemKind::U128, ElemKind::B3, ElemKind::W40, ElemKind::Nd]), prop_oneof![49 => 0..=max, 1 => 0u8..=120], prop_oneof![49 => 0..=max, 1 => 0u8..=120], any::<bool>(), prop_oneof![Just(Axis::Row), Just(Axis::Col)], prop::bool::weighted(0.2), any::<u16>(), prop_oneof![12 => Just(0u64), 1 => Just(1u64), 1 => Just(u64::MAX), 1 => Just(1u64 << 62)], prop_oneof![3 => drain_script(), 1 => prop::collection::vec(super::history::dstep(), 0..60)])
             .prop_map(|(elem, cols, rows, exact_cap, axis, pop, frac, past, script)| {
                 let (cols, rows) = if cols == 0 || rows == 0 { (0, 0) } else { (cols, rows) };
                 let dim = if axis == Axis::Row { rows } else { cols } as u64;
@@ -708,6 +710,8 @@ impl Prop for C07 {
             ElemKind::Zs => run_rem::<Zs>(k, ctx),
             ElemKind::U128 => run_rem::<u128>(k, ctx),
             ElemKind::B3 => run_rem::<crate::elem::B3>(k, ctx),
+            ElemKind::Nd => run_rem::<crate::elem::Nd>(k, ctx),
+            ElemKind::W40 => run_rem::<crate::elem::W40>(k, ctx),
         }
     }
     fn essential_classes() -> &'static [&'static str] {
